@@ -24,6 +24,7 @@ func checkC09(c *Ctx) {
 
 	c.Rule("C09/R8", "every field has its own first-observation table: the map stored into Field.order (and the comparator reading it) is created inside the per-field initialiser, never captured from outside it, so the keys inside .config do not share ranks")
 	c.Rule("C09/R9", "numeric suffix scales cannot wrap: no left shift in the sorting code has an amount that provably reaches the operand's width for an entry of a literal suffix table (1<<(10*exp) is 0 from Zi on; math.Pow has no such limit)")
+	c.Rule("C09/R14", "comparing does not change the order: no closure stored into Field.cmp (nor one it makes or calls) writes a map or memory it captured")
 	c.Rule("C09/R13", "a field comparator is an order: for every closure stored into Field.cmp, wherever a path of cmp(a,b) and a path of cmp(b,a) can be taken by the same pair of values, constant results are opposite")
 	c.Rule("C09/R12", "SortKeys compares by every flattened field: the field list its comparison passes to the shared less function is FlattenedFields() as returned, assigned once")
 	c.Rule("C09/R11", "observation order is recorded for every new key: the loop filling the fields' observation maps is reached under no condition of its own")
@@ -36,6 +37,7 @@ func checkC09(c *Ctx) {
 	c09OrderAlways(c, p)
 	c09SortKeysAllFields(c, p)
 	c09Antisymmetric(c, p)
+	c09ComparatorsReadOnly(c, p, "C09/R14")
 }
 
 func c09(c *Ctx, p *Prog) {
